@@ -16,7 +16,7 @@
 (* computed from the logged calls and their result kinds only, never from   *)
 (* the observed values.  One VERDICT line is printed per trace.             *)
 (***************************************************************************)
-EXTENDS ParsersSpec, Json, IOUtils, TLCExt
+EXTENDS Annotate, Json, IOUtils, TLCExt
 
 Traces == JsonDeserialize(IOEnv.TRACE_FILE)
 
@@ -90,15 +90,27 @@ StepDerive ==
 
 \* C18 / C09_c / C10_d: stateless lines (parsers, timestamp compaction)
 StepParse ==
-  /\ Line.op \in {"parse", "compact", "keys"}
+  /\ Line.op \in {"parse", "compact", "keys", "annotate"}
   /\ LET tab == CASE Line.op = "parse"   -> ParseTable(Line)
+                  [] Line.op = "annotate" -> AnnotateTable(Line)
                   [] Line.op = "compact" -> CompactTable(Line)
                   [] Line.op = "keys"    -> KeysTable(Line)
      IN fails' = fails \cup { <<l, x[1], x[2]>> : x \in NotOk(tab) }
   /\ UNCHANGED <<R, T, rej, prevO>>
 
+\* C12 / C13 / C15: path queries on the current object (line.qs), judged
+\* against the presence relation observed in the same line
+QTab(O, q) == CASE q.fn = "trp"  -> TRP_Table(O, q)
+                [] q.fn = "atrp" -> ATRP_Table(O, q)
+                [] q.fn = "dag"  -> DAG_Table(O, q)
+StepPaths ==
+  /\ Line.op = "paths"
+  /\ LET bad == UNION { NotOk(QTab(Line.obs, Line.qs[i])) : i \in DOMAIN Line.qs }
+     IN fails' = fails \cup { <<l, x[1], x[2]>> : x \in bad }
+  /\ UNCHANGED <<R, T, rej, prevO>>
+
 Step == /\ l <= Len(Traces[tid])
-        /\ (StepNew \/ StepAdd \/ StepNode \/ StepObserve \/ StepBattery \/ StepDerive \/ StepParse)
+        /\ (StepNew \/ StepAdd \/ StepNode \/ StepObserve \/ StepBattery \/ StepDerive \/ StepParse \/ StepPaths)
         /\ l' = l + 1
         /\ UNCHANGED tid
 
